@@ -205,3 +205,28 @@ def exc_isa(cname, target):
             return True
         cname = EXC_PARENT.get(cname)
     return False
+
+
+# ---------------------------------------------------------------------------------------------
+# named comprehension terms: a set / map built pointwise is a fresh array constant *defined* by a
+# quantified axiom (definitional extension) rather than a z3 lambda term -- lambdas as arguments of
+# uninterpreted functions make z3's array theory give up ("incomplete (theory array)").
+# ---------------------------------------------------------------------------------------------
+DEFS = []            # definitional axioms, collected by the unit driver
+_DEF_CACHE = {}
+
+
+def reset_defs():
+    del DEFS[:]
+    _DEF_CACHE.clear()
+
+
+def mk_lambda(var, body):
+    canon = z3.Const("x!def", var.sort())
+    b = z3.substitute(body, (var, canon))
+    key = (var.sort().name(), b.sexpr())
+    if key not in _DEF_CACHE:
+        arr = z3.Const("def!%d" % len(_DEF_CACHE), z3.ArraySort(var.sort(), body.sort()))
+        DEFS.append(z3.ForAll([canon], arr[canon] == b))
+        _DEF_CACHE[key] = arr
+    return _DEF_CACHE[key]
